@@ -382,6 +382,8 @@ def finish(prop, tier, seed, plan, results, known_hits, t0, exit_code, notes, wd
             'callees_inlined': len(r.inlined),
             'obligations': e.counts(), 'solver': e.solver, 'solver_s': round(e.solver_s, 2),
             'unwind': r.job.unwind, 'canary': e.canary, 'note': r.job.note or None,
+            'abstracted': [n for n, f in (('machine multiplication as one uninterpreted function per width', r.job.abstract_mul), ('machine division as uninterpreted functions', r.job.abstract_div), ('floating-point division/multiplication as uninterpreted functions', r.job.abstract_fp)) if f] or None,
+            'obligation_classes_left_to_companion_job': list(r.job.ignore_classes) or None,
         })
     samples = []
     for r in results[:3]:
@@ -441,7 +443,8 @@ def finish(prop, tier, seed, plan, results, known_hits, t0, exit_code, notes, wd
             'exit_code': exit_code,
             'notes': notes,
         },
-        'assumptions': meta.get('assumptions', []) + [
+        'assumptions': meta.get('assumptions', []) + ([
+            'jobs marked abstracted prove their clauses for every interpretation of the abstracted operation (sound over-approximation); what needs the machine semantics (no-overflow, non-zero, ranges) is proved by unabstracted companion jobs, by operand-width arithmetic in the printer, or by compile-time interval facts'] if any(r.job.abstract_mul or r.job.abstract_div or r.job.abstract_fp for r in results) else []) + [
             'results are per listed instantiation (the programs quantifier is sampled by the instantiation plan)',
             'machine division sdiv/udiv/srem/urem is modelled by CBMC bit-precisely unless a job states otherwise',
         ],
